@@ -102,6 +102,9 @@ def arith_cases(draw):
                 i = draw(st.integers(0, deg - 1))
                 fl[i] = (fl[i] + draw(st.sampled_from((1, Q - 1, 2)))) % Q
             b, sb = _build(deg, fl), "near"
+        if op in BIN_OPS and draw(st.integers(0, 5)) == 0:
+            # both operands one object (r.multiply(x, x)): a shortcut keyed on pointer identity sees nothing else
+            b, sb, c["same_object"] = a, sa, True
         c["b"], c["sb"] = b, sb
     if op == "frob":
         c["k"] = draw(st.sampled_from(FROB_POWERS))
@@ -177,7 +180,11 @@ def check_arith(ctx, lib, c):
     exp = None
     if op in BIN_OPS:
         b = c["b"]
-        rv, out = lib.op("%s_%s" % (pf, op), A, TO_B[deg](b))
+        if c.get("same_object"):
+            rv, out = lib.op("%s_%s" % (pf, op), A, None, alias="b=a")
+            cls += ":same-object"
+        else:
+            rv, out = lib.op("%s_%s" % (pf, op), A, TO_B[deg](b))
         exp = {"add": ref_add, "sub": ref_sub, "mul": ref_mul}[op](deg, a, b)
     elif op == "dbl":
         rv, out = lib.op(pf + "_dbl", A)
